@@ -29,7 +29,7 @@ ASSUMPTIONS = [
 ]
 
 KEYS = ["displayName", "guestOS", "scsi0:0.fileName", "memsize", "ETHERNET0.address", "annotation", "uuid.bios", ".encoding", "numvcpus",
-        "ide1:0.deviceType", "vmci0.present", "x.y.Z"]
+        "ide1:0.deviceType", "vmci0.present", "x.y.Z", "scsi0:1.fileName", "sata0:0.fileName", "ide1:0.fileName", "nvme0:0.fileName"]
 VALUE_ALPHABET = "abcXYZ0189 =#:/\\-_.,;%+()[]{}'äß€\U0001F98A"
 
 
@@ -114,6 +114,7 @@ def unlock(text, phrase):
 
     v = VMX.parse(text)
     before = copy.deepcopy(v.attr)
+    v.disks_before_unlock = lib(lambda: list(v.disks()))[0]  # also: whatever disks() derives must not survive the unlock
     _, err = lib(v.unlock_with_phrase, phrase)
     return v, before, err
 
@@ -138,6 +139,17 @@ def check(spec) -> Outcome:
         diff = {k: (v.attr.get(k), after.get(k)) for k in set(v.attr) | set(after) if v.attr.get(k) != after.get(k)}
         out.fail(f"mismatch|unlock|{tag}", f"attr after unlock differs: {diff}")
         return out
+
+    from hv.props import c18
+
+    exp_before, exp_after = c18.vmx_expected_disks(before), c18.vmx_expected_disks(after)
+    if v.disks_before_unlock != exp_before:
+        out.fail(f"mismatch|disks-locked|{tag}", f"disks() before unlocking {v.disks_before_unlock} != {exp_before}")
+    got_disks, err = lib(lambda: list(v.disks()))
+    if err or got_disks != exp_after:
+        out.fail(f"mismatch|disks-unlocked|{tag}", f"disks() after unlocking {got_disks if not err else err.describe()} != {exp_after}")
+    if exp_after != exp_before:
+        out.cls("disks-only-visible-unlocked")
 
     # (a') the same object afterwards: a wrong passphrase still raises and changes nothing, the right one still works
     pw = p["passphrase"]
